@@ -305,7 +305,12 @@ RULE = ("`params` family: (a) typed random expression trees of harness/terms_fam
         "list / GROUP BY / HAVING / ORDER BY, one criterion object in WHERE and in a CASE; plus a random 30% of ordinary statements "
         "built with structurally equal parts shared); EXPLICITLY NAMED placeholders (ParameterValueWrapper with the class's own parameter "
         "object, names from a pool that stresses the key derivation: ending/starting in s, one character, containing the automatic "
-        "prefix, equal to param<n>) mixed with literals, and custom placeholder generators on the collector (oracle only); a malformed stream (empty criteria, CASE without WHEN). Compared with the model: text AND collector "
+        "prefix, equal to param<n>) mixed with literals, and custom placeholder generators on the collector (oracle only); VENDOR CLAUSES (oracle only): all ten "
+        "query classes x SELECT/INSERT/UPDATE/DELETE x every clause feature that can hold a literal (PostgreSQL ON CONFLICT target "
+        "WHERE / DO UPDATE / DO UPDATE WHERE / RETURNING / DISTINCT ON / USING, MySQL ON DUPLICATE KEY UPDATE, ClickHouse PREWHERE / "
+        "LIMIT BY / SAMPLE / FINAL, MSSQL TOP, WITH, temporal FOR, window / FILTER / CASE, joins, set operation, INSERT..SELECT, "
+        "REPLACE ...) alone, in all pairs (sampled for SELECT in the quick tier) and some triples, with distinct literals so that a "
+        "permutation shows; a renderer inventory per class (every `_*_sql` method on the builder's MRO must run in some case: fail closed); a malformed stream (empty criteria, CASE without WHEN). Compared with the model: text AND collector "
         "contents. Non-trivial = at least two collected values; distinct by structural hash of (input, class).")
 TRUSTED = [
     "harness/props/C06.py builds the same term/statement on pypika and as a Gallina value; canonicalises collected values to tagged JSON",
@@ -729,6 +734,9 @@ def _render(case, style):
         if case["kind"] == "term":
             obj = build_term(case["t"])
             kw = tf.ctx_kwargs(case["c"])
+        elif case["kind"] == "vendor":
+            obj = build_vendor(case)
+            kw = {}
         else:
             obj = build_stmt(case["s"], case["dialect"])
             kw = {}
@@ -750,6 +758,8 @@ def _render(case, style):
 
 
 def run_impl(case):
+    if case["kind"] == "inventory":
+        return run_inventory(case["cls"])
     text, params = _render(case, case["sty"])
     inline, _ = _render(case, "inline")
     return {"text": text, "params": params, "inline": inline}
@@ -769,8 +779,14 @@ def coq_pval(tv):
     return "(VStr %s)" % S("!other:" + str(tv[1]))     # not a value the model's collector can hold
 
 
+def case_spec(case):
+    return case["t"] if case["kind"] == "term" else (case["s"] if case["kind"] == "stmt" else [])
+
+
 def to_coq(case, outcome):
-    spec = case["t"] if case["kind"] == "term" else case["s"]
+    if case["kind"] in ("vendor", "inventory"):
+        return None      # vendor clauses are outside Param.v: judged by the oracle only
+    spec = case_spec(case)
     if case.get("gen") or has_pvw(spec):
         return None      # custom placeholder generators / ParameterValueWrapper: judged by the oracle only
     fl = floats_of(spec)
@@ -1172,6 +1188,7 @@ def gen_cases(rng, tier):
             if rng.random() < 0.3:
                 c["share"] = True       # structurally equal parts, if any, become one object
             out.append(c)
+    out += gen_vendor(rng, tier)
     for c in out:
         _normalise_raw(c)
     return out
@@ -1292,6 +1309,15 @@ def corpus():
             # an explicit name that is also the collector's next automatic name: the later assignment overwrites the earlier
             out.append({"kind": "term", "c": sc, "sty": sty,
                         "t": ["cplx", "and", ["basic", "eq", F("a"), ["pvw", "param2", Sv("x")], None], ["basic", "eq", F("b"), I(5), None], None]})
+        # vendor clauses: two clauses with constants in one statement (evaluation order must be text order)
+        out.append({"kind": "vendor", "cls": "PostgreSQLQuery", "stmt": "insert", "base": "values", "sty": sty,
+                    "features": ["on_conflict_update", "returning"]})
+        out.append({"kind": "vendor", "cls": "PostgreSQLQuery", "stmt": "insert", "base": "values", "sty": sty,
+                    "features": ["on_conflict_target_where", "on_conflict_update_where", "returning"]})
+        out.append({"kind": "vendor", "cls": "MySQLQuery", "stmt": "insert", "base": "values", "sty": sty,
+                    "features": ["more_rows", "dup_update"]})
+        out.append({"kind": "vendor", "cls": "ClickHouseQuery", "stmt": "select", "base": "plain", "sty": sty,
+                    "features": ["prewhere", "where", "limit_by", "distinct_on"]})
         # ORDER BY of a set operation repeating a result column that contains a literal
         e1 = ["arith", "add", F("a"), I(1), None]
         out.append({"kind": "stmt", "dialect": "sqlite", "sty": sty,
@@ -1303,6 +1329,450 @@ def corpus():
                     "s": ["select", _sel([I(0), I(2), ["basic", "gte", I(2), F("x1"), None]], frm="u", groupby=[I(3)])]})
     for c in out:
         _normalise_raw(c)
+    return out
+
+
+# ----------------------------------------------------------------------------------------------
+# vendor clauses (oracle only): every clause renderer of the ten query classes, with literals, alone and in pairs
+# ----------------------------------------------------------------------------------------------
+QCLASSES = ["Query", "MySQLQuery", "VerticaQuery", "OracleQuery", "PostgreSQLQuery", "RedshiftQuery", "MSSQLQuery",
+            "ClickHouseQuery", "SQLLiteQuery", "SnowflakeQuery"]
+
+
+def qclass(name):
+    import pypika
+    import pypika.dialects as D
+    return getattr(pypika, name, None) or getattr(D, name)
+
+
+class _Vals:
+    """distinct literals, so that a permutation of the collected values shows"""
+
+    def __init__(self, start=0):
+        self.n = 100 + start
+
+    def __call__(self, kind=None):
+        self.n += 1
+        k = kind or ("i" if self.n % 2 else "s")
+        return self.n if k == "i" else "v%d" % self.n
+
+
+def _tbl():
+    from pypika import Table
+    return Table("t"), Table("u")
+
+
+# feature: (statement kinds, classes or None, function(q, V) -> q)
+def _f_where(q, V):
+    t, _ = _tbl()
+    return q.where(t.a == V())
+
+
+def _f_where2(q, V):
+    t, _ = _tbl()
+    return q.where(t.b.between(V("i"), V("i")) | t.c.isin([V(), V()]))
+
+
+def _f_prewhere(q, V):
+    t, _ = _tbl()
+    return q.prewhere(t.c != V())
+
+
+def _f_having(q, V):
+    from pypika import functions as fn
+    t, _ = _tbl()
+    return q.groupby(t.a).having(fn.Count(t.b) > V("i"))
+
+
+def _f_groupby_expr(q, V):
+    t, _ = _tbl()
+    return q.groupby(t.b + V("i"))
+
+
+def _f_orderby_expr(q, V):
+    from pypika import Order
+    t, _ = _tbl()
+    return q.orderby(t.c + V("i"), order=Order.desc)
+
+
+def _f_select_case(q, V):
+    from pypika import Case
+    t, _ = _tbl()
+    return q.select(Case().when(t.a == V(), V()).when(t.b > V("i"), V()).else_(V()).as_("k"))
+
+
+def _f_select_window(q, V):
+    from pypika import analytics as an
+    t, _ = _tbl()
+    return q.select(an.Sum(t.a + V("i")).over(t.b).orderby(t.c).rows(an.Preceding(2), an.CURRENT_ROW).as_("w"))
+
+
+def _f_select_filter(q, V):
+    from pypika import functions as fn
+    t, _ = _tbl()
+    return q.select(fn.Sum(t.a).filter(t.b == V()).as_("f"), t.c * V("i"))
+
+
+def _f_join_on(q, V):
+    t, u = _tbl()
+    return q.join(u).on((t.a == u.a) & (u.b == V()))
+
+
+def _f_join_sub(q, V):
+    t, u = _tbl()
+    sub = type(q).QUERY_CLS.from_(u).select(u.a, u.b).where(u.c == V()).as_("sj")
+    return q.join(sub).on((t.a == sub.a) & (sub.b > V("i")))
+
+
+def _f_limit(q, V):
+    return q.limit(7).offset(3)
+
+
+def _f_distinct(q, V):
+    return q.distinct()
+
+
+def _f_for_update(q, V):
+    return q.for_update()
+
+
+def _f_indexes(q, V):
+    return q.force_index("ix1").use_index("ix2")
+
+
+def _f_distinct_on(q, V):
+    t, _ = _tbl()
+    return q.distinct_on(t.a + V("i"), t.b)
+
+
+def _f_limit_by(q, V):
+    t, _ = _tbl()
+    return q.limit_by(2, t.a + V("i"))
+
+
+def _f_limit_offset_by(q, V):
+    t, _ = _tbl()
+    return q.limit_offset_by(2, 1, t.b * V("i"))
+
+
+def _f_sample(q, V):
+    return q.sample(10, 5)
+
+
+def _f_final(q, V):
+    return q.final()
+
+
+def _f_top(q, V):
+    return q.top(5)
+
+
+def _f_modifier(q, V):
+    return q.modifier("SQL_CALC_FOUND_ROWS")
+
+
+def _f_hint(q, V):
+    return q.hint("lbl")
+
+
+def _f_rollup(q, V):
+    t, _ = _tbl()
+    return q.rollup(t.a, t.b, vendor="mysql")
+
+
+def _f_union(q, V):
+    t, u = _tbl()
+    other = type(q).QUERY_CLS.from_(u).select(u.a, *[V() for _ in q._selects[1:]]).where(u.b == V())
+    return q.union(other).orderby(t.a)
+
+
+def _f_select_into(q, V):
+    from pypika import Table
+    return q.into(Table("arch"))
+
+
+# INSERT
+def _f_on_conflict_update(q, V):
+    return q.on_conflict("a").do_update("b", V())
+
+
+def _f_on_conflict_target_where(q, V):
+    from pypika import Field
+    return q.on_conflict("a").where(Field("c") > V("i")).do_update("b", V())
+
+
+def _f_on_conflict_update_where(q, V):
+    from pypika import Field
+    return q.on_conflict("a").do_update("b", V()).do_update("c").where(Field("b") != V())
+
+
+def _f_on_conflict_nothing(q, V):
+    return q.on_conflict("a").do_nothing()
+
+
+def _f_returning(q, V):
+    t, _ = _tbl()
+    return q.returning(t.a, t.b + V("i"), V())
+
+
+def _f_dup_update(q, V):
+    return q.on_duplicate_key_update("b", V()).on_duplicate_key_update("c", V("i"))
+
+
+def _f_dup_ignore(q, V):
+    return q.on_duplicate_key_ignore()
+
+
+def _f_ignore(q, V):
+    return q.ignore()
+
+
+def _f_more_rows(q, V):
+    return q.insert(V("i"), V(), V("i"))
+
+
+# UPDATE
+def _f_set_more(q, V):
+    t, _ = _tbl()
+    return q.set("c", V()).set(t.b, t.b + V("i"))
+
+
+def _f_update_from(q, V):
+    t, u = _tbl()
+    return q.from_(u).where(t.a == u.a).where(u.b == V())
+
+
+def _f_update_join(q, V):
+    t, u = _tbl()
+    return q.join(u).on((t.a == u.a) & (u.c == V()))
+
+
+# DELETE
+def _f_using(q, V):
+    t, u = _tbl()
+    return q.using(u).where(t.a == u.a).where(u.b == V())
+
+
+SEL, INS, UPD, DEL = "select", "insert", "update", "delete"
+PG = ("PostgreSQLQuery",)
+FEATURES = {
+    "where": ((SEL, UPD, DEL), None, _f_where),
+    "where2": ((SEL, UPD, DEL), None, _f_where2),
+    "prewhere": ((SEL,), None, _f_prewhere),
+    "having": ((SEL,), None, _f_having),
+    "groupby_expr": ((SEL,), None, _f_groupby_expr),
+    "orderby_expr": ((SEL,), None, _f_orderby_expr),
+    "select_case": ((SEL,), None, _f_select_case),
+    "select_window": ((SEL,), None, _f_select_window),
+    "select_filter": ((SEL,), None, _f_select_filter),
+    "join_on": ((SEL,), None, _f_join_on),
+    "join_sub": ((SEL,), None, _f_join_sub),
+    "limit": ((SEL, UPD), None, _f_limit),
+    "distinct": ((SEL,), None, _f_distinct),
+    "for_update": ((SEL,), None, _f_for_update),
+    "indexes": ((SEL,), None, _f_indexes),
+    "distinct_on": ((SEL,), ("PostgreSQLQuery", "ClickHouseQuery"), _f_distinct_on),
+    "limit_by": ((SEL,), ("ClickHouseQuery",), _f_limit_by),
+    "limit_offset_by": ((SEL,), ("ClickHouseQuery",), _f_limit_offset_by),
+    "sample": ((SEL,), ("ClickHouseQuery",), _f_sample),
+    "final": ((SEL,), ("ClickHouseQuery",), _f_final),
+    "top": ((SEL,), ("MSSQLQuery",), _f_top),
+    "modifier": ((SEL,), ("MySQLQuery",), _f_modifier),
+    "hint": ((SEL,), ("VerticaQuery",), _f_hint),
+    "rollup": ((SEL,), None, _f_rollup),
+    "union": ((SEL,), None, _f_union),
+    "select_into": ((SEL,), None, _f_select_into),
+    "on_conflict_update": ((INS,), PG, _f_on_conflict_update),
+    "on_conflict_target_where": ((INS,), PG, _f_on_conflict_target_where),
+    "on_conflict_update_where": ((INS,), PG, _f_on_conflict_update_where),
+    "on_conflict_nothing": ((INS,), PG, _f_on_conflict_nothing),
+    "returning": ((INS, UPD, DEL), PG, _f_returning),
+    "dup_update": ((INS,), ("MySQLQuery",), _f_dup_update),
+    "dup_ignore": ((INS,), ("MySQLQuery",), _f_dup_ignore),
+    "ignore": ((INS,), None, _f_ignore),
+    "more_rows": ((INS,), None, _f_more_rows),
+    "set_more": ((UPD,), None, _f_set_more),
+    "update_from": ((UPD,), None, _f_update_from),
+    "update_join": ((UPD,), None, _f_update_join),
+    "using": ((DEL,), PG, _f_using),
+}
+# features that change the shape of the whole statement and therefore come last / exclude others
+LAST = ("union",)
+BASES = {
+    SEL: ["plain", "with", "temporal", "subquery_from"],
+    INS: ["values", "replace", "insert_select", "or_replace"],
+    UPD: ["plain"],
+    DEL: ["plain"],
+}
+# renderers that no DML statement reaches, with the reason (anything else that is not exercised fails the check)
+EXEMPT_RENDERERS = {
+    "_temporal_sql": (None, "Table._temporal_sql is not part of get_sql (used by __hash__/__eq__ helpers only)"),
+    "_using_sql": ([c for c in QCLASSES if c != "PostgreSQLQuery"],
+                   "only PostgreSQLQueryBuilder has a public method (using) that fills _using"),
+    "_distinct_sql": (["MySQLQuery", "MSSQLQuery"], "their own _select_sql writes DISTINCT itself"),
+}
+
+
+def exempt_for(cls):
+    return {n for n, (classes, _) in EXEMPT_RENDERERS.items() if classes is None or cls in classes}
+# `_*_sql` methods of classes that take no parameter collector at all (DDL, LOAD / COPY); a new name here fails closed
+NON_DML_RENDERERS = {"_as_select_sql", "_body_sql", "_create_table_sql", "_table_options_sql", "_preserve_rows_sql",
+                     "_into_table_sql", "_load_file_sql", "_options_sql", "_copy_table_sql", "_from_file_sql"}
+
+
+def vendor_base(cls, kind, base, V):
+    from pypika import AliasedQuery
+    from pypika import SYSTEM_TIME
+    Q = qclass(cls)
+    t, u = _tbl()
+    if kind == SEL:
+        if base == "with":
+            sub = Q.from_(u).select(u.a, u.b).where(u.c == V())
+            w = AliasedQuery("w")
+            return Q.with_(sub, "w").from_(t).join(w).on(t.a == w.a).select(t.a, w.b)
+        if base == "temporal":
+            return Q.from_(t.for_(SYSTEM_TIME.between(V(), V()))).select(t.a)
+        if base == "subquery_from":
+            sub = Q.from_(u).select(u.a, u.b).where(u.c == V()).as_("sq0")
+            return Q.from_(sub).select(sub.a, V("i"))
+        return Q.from_(t).select(t.a, V())
+    if kind == INS:
+        if base == "replace":
+            return Q.into(t).columns("a", "b", "c").replace(V("i"), V(), V())
+        if base == "or_replace":
+            return Q.into(t).columns("a", "b", "c").insert_or_replace(V("i"), V(), V())
+        if base == "insert_select":
+            return Q.into(t).columns("a", "b").from_(u).select(u.a, V()).where(u.c == V())
+        return Q.into(t).columns("a", "b", "c").insert(V("i"), V(), V())
+    if kind == UPD:
+        return Q.update(t).set("a", V())
+    return Q.from_(t).delete()
+
+
+def build_vendor(case):
+    V = _Vals()
+    q = vendor_base(case["cls"], case["stmt"], case["base"], V)
+    for f in case["features"]:
+        q = FEATURES[f][2](q, V)
+    return q
+
+
+def feature_ok(cls, kind, f):
+    kinds, classes, _ = FEATURES[f]
+    return kind in kinds and (classes is None or cls in classes)
+
+
+def vendor_buildable(case):
+    try:
+        q = build_vendor(case)
+        q.get_sql()
+        return True
+    except Exception:  # noqa  (the class does not offer the method / rejects the combination)
+        return False
+
+
+def renderer_inventory(cls):
+    """every `_*_sql` method on the MRO of the class's builder, on Table and on _SetOperation (as harness/props/C07.py does),
+    and the ones of all other classes of the two modules"""
+    import inspect
+    import pypika.queries as PQ
+    import pypika.dialects as PD
+    own, other = set(), set()
+    b = qclass(cls)._builder()
+    mro = set(type(b).__mro__) | {PQ.Table, PQ._SetOperation}
+    for mod in (PQ, PD):
+        for _, k in inspect.getmembers(mod, inspect.isclass):
+            if k.__module__ != mod.__name__:
+                continue
+            names = {m for m in vars(k) if re.match(r"_\w+_sql$", m)}
+            (own if k in mro else other).update(names)
+    return own, other
+
+
+def traced_renderers(q):
+    """names of the `_*_sql` functions of pypika that run while q is rendered"""
+    import sys
+    seen = set()
+
+    def prof(frame, event, arg):
+        if event == "call":
+            n = frame.f_code.co_name
+            if n.endswith("_sql") and n.startswith("_") and "pypika" in frame.f_code.co_filename:
+                seen.add(n)
+    old = sys.getprofile()
+    sys.setprofile(prof)
+    try:
+        q.get_sql()
+    finally:
+        sys.setprofile(old)
+    return seen
+
+
+def all_vendor_singles(cls):
+    out = []
+    for kind, bases in BASES.items():
+        for base in bases:
+            c0 = {"kind": "vendor", "cls": cls, "stmt": kind, "base": base, "features": []}
+            if vendor_buildable(c0):
+                out.append(c0)
+        for f in FEATURES:
+            if feature_ok(cls, kind, f):
+                c = {"kind": "vendor", "cls": cls, "stmt": kind, "base": BASES[kind][0], "features": [f]}
+                if vendor_buildable(c):
+                    out.append(c)
+    return out
+
+
+def run_inventory(cls):
+    own, other = renderer_inventory(cls)
+    seen = set()
+    for c in all_vendor_singles(cls):
+        seen |= traced_renderers(build_vendor(c))
+    return {"uncovered": sorted(own - seen - exempt_for(cls)), "unknown": sorted(other - own - NON_DML_RENDERERS - _all_dml_names())}
+
+
+def _all_dml_names():
+    names = set()
+    for c in QCLASSES:
+        names |= renderer_inventory(c)[0]
+    return names
+
+
+def gen_vendor(rng, tier):
+    """singles for every class, all pairs for the INSERT/UPDATE/DELETE kinds, sampled pairs/triples for SELECT"""
+    out = []
+    classes = QCLASSES
+    for cls in classes:
+        for c in all_vendor_singles(cls):
+            out.append(dict(c, sty=rng.choice(STYLE_NAMES)))
+        for kind in (INS, UPD, DEL, SEL):
+            fs = [f for f in FEATURES if feature_ok(cls, kind, f)]
+            pairs = [(a, b) for i, a in enumerate(fs) for b in fs[i + 1:]]
+            if kind == SEL:
+                pairs = rng.sample(pairs, min(len(pairs), 10 if tier == "quick" else 120))
+            elif tier == "quick" and cls not in ("PostgreSQLQuery", "MySQLQuery"):
+                pairs = rng.sample(pairs, min(len(pairs), 4))
+            for a, b in pairs:
+                feats = [a, b]
+                if rng.random() < 0.3:
+                    extra = rng.choice(fs)
+                    if extra not in feats:
+                        feats.append(extra)
+                feats.sort(key=lambda f: f in LAST)
+                if rng.random() < 0.5:
+                    nl = [f for f in feats if f not in LAST]
+                    rng.shuffle(nl)
+                    feats = nl + [f for f in feats if f in LAST]
+                c = {"kind": "vendor", "cls": cls, "stmt": kind, "base": rng.choice(BASES[kind]), "features": feats}
+                if not vendor_buildable(c):
+                    c["base"] = BASES[kind][0]
+                    if not vendor_buildable(c):
+                        continue
+                # positional classes show a permutation; the named ones show a wrong name
+                for sty in (["qmark", rng.choice(["numeric", "named", "pyformat", "format"])] if tier == "quick" else STYLE_NAMES):
+                    out.append(dict(c, sty=sty))
+    for cls in classes:
+        out.append({"kind": "inventory", "cls": cls, "sty": "qmark"})
     return out
 
 
@@ -1480,8 +1950,18 @@ def resolve(style, params, text, n):
 
 
 def oracle(case, outcome):
+    if case["kind"] == "inventory":
+        out = []
+        if outcome.get("uncovered"):
+            out.append({"signature": ["C06", "inventory", case["cls"], "renderer-not-exercised"],
+                        "what": "clause renderers of %s that no vendor case exercises (add a feature with a literal to harness/props/C06.py, "
+                                "or exempt it with a reason): %s" % (case["cls"], outcome["uncovered"])})
+        if outcome.get("unknown"):
+            out.append({"signature": ["C06", "inventory", case["cls"], "unknown-renderer"],
+                        "what": "`_*_sql` methods on classes this check does not know: %s" % outcome["unknown"]})
+        return out
     V = _oracle(case, outcome)
-    spec = case["t"] if case["kind"] == "term" else case["s"]
+    spec = case_spec(case)
     if V and case["sty"] in ("named", "pyformat") and not case.get("gen"):
         names = [n for n in pvw_names(spec) if n is not None]
         total = len(names) + len([x for x in walk_leaves(spec, []) if x[0] in VALUE_KINDS])
@@ -1773,7 +2253,11 @@ def exec_differs(case, sty, text, toks, params, inline):
 # evidence helpers, targeted search
 # ----------------------------------------------------------------------------------------------
 def nontrivial_key(case):
-    spec = case["t"] if case["kind"] == "term" else case["s"]
+    if case["kind"] == "vendor":
+        return json.dumps([case["cls"], case["stmt"], case["base"], case["features"], case["sty"]]) if case["features"] else None
+    if case["kind"] == "inventory":
+        return None
+    spec = case_spec(case)
     vals = [x for x in walk_leaves(spec, []) if x[0] in VALUE_KINDS]
     if case["sty"] != "inline" and len(vals) >= 2:
         return json.dumps([spec, case["sty"], case.get("c"), case.get("dialect"), bool(case.get("share"))], sort_keys=True)
@@ -1787,6 +2271,13 @@ def histogram(cases):
         h[k] = h.get(k, 0) + n
     for c in cases:
         bump("class=" + c["sty"])
+        if c["kind"] in ("vendor", "inventory"):
+            bump("kind=" + c["kind"])
+            if c["kind"] == "vendor":
+                bump("vendor class=" + c["cls"])
+                for f in c["features"]:
+                    bump("vendor feature=" + f)
+            continue
         if c["kind"] == "term":
             bump("kind=term")
             spec = c["t"]
@@ -1824,6 +2315,7 @@ def targeted_search(rng, broken, mism_cases):
                         out.append({"kind": "stmt", "dialect": c["dialect"], "sty": sty,
                                     "s": ["select", _sel([F("a")], **{key: s[key]})]})
     out += corpus()
+    out += gen_vendor(rng, "thorough")
     for _ in range(1500):
         sty = rng.choice(STYLE_NAMES)
         if rng.random() < 0.4:
